@@ -1006,7 +1006,12 @@ impl<'a, R: CharRead> Lexer<'a, R> {
                         break;
                     }
 
-                    cr = self.lookahead_char().ok();
+                    cr = match self.lookahead_char() {
+                        Ok(c) => Some(c),
+                        Err(e) if e.is_unexpected_eof() => None,
+                        // bytes that are not UTF-8 are reported, not dropped with the layout.
+                        Err(e) => return Err(e),
+                    };
                 }
 
                 Ok(layout_info.inserted)
